@@ -16,6 +16,7 @@ stated properties; what is analysed is the behaviour of the defaults.
 import ast
 
 from mmsa import dataflow
+from mmsa import core
 from mmsa.core import norm
 
 
@@ -300,3 +301,161 @@ def has_const_test(node):
     if isinstance(x, (ast.If, ast.IfExp)) and _const_test(x.test) is not None:
       return True
   return False
+
+
+def enum_values(repo):
+  """`Kind.MEMBER.value` -> the constant, for enumerations defined in the package (a class deriving from enum.Enum /
+  IntEnum / Flag whose member is bound to a constant at class level): an internal code written as an enumeration
+  member instead of a string literal is the same code.  Comparisons of members by identity stay symbolic."""
+  n = 0
+  enums = {}
+  for c in repo.classes.values():
+    if any(b.split('.')[-1] in ('Enum', 'IntEnum', 'StrEnum', 'Flag', 'IntFlag') for b in c.bases):
+      members = {k: v for k, v in c.attrs.items() if isinstance(v, ast.Constant) and not k.startswith('_')}
+      if members:
+        enums[c.qualname] = (c, members)
+  if not enums:
+    return 0
+  changed = set()
+  for m in repo.modules.values():
+    def sub_(x):
+      nonlocal n
+      if isinstance(x, ast.Attribute) and x.attr == 'value' and isinstance(x.ctx, ast.Load) and isinstance(x.value, ast.Attribute) \
+          and isinstance(x.value.value, (ast.Name, ast.Attribute)):
+        try:
+          r = repo.resolve_dotted(m, core.dotted(x.value.value))
+        except Exception:
+          r = None
+        if r and r[0] == 'class' and r[1].qualname in enums and x.value.attr in enums[r[1].qualname][1]:
+          n += 1
+          changed.add(m.name)
+          return ast.copy_location(dataflow.clone(enums[r[1].qualname][1][x.value.attr]), x)
+      return dataflow._map_children(x, sub_)
+    for st in m.tree.body:
+      if isinstance(st, (ast.FunctionDef, ast.AsyncFunctionDef, ast.ClassDef)):
+        st.body = [sub_(s_) for s_ in st.body]
+  for mn in changed:
+    t = repo.modules[mn].tree
+    ast.fix_missing_locations(t)
+    for p_ in ast.walk(t):
+      for ch in ast.iter_child_nodes(p_):
+        ch._parent = p_
+  return n
+
+
+def fold_enum_values_in(repo, module, node):
+  """`Kind.MEMBER.value` -> its constant inside one statement (used after a loop over an enumeration was unrolled)."""
+  def sub_(x):
+    if isinstance(x, ast.Attribute) and x.attr in ('value', 'name') and isinstance(x.ctx, ast.Load) and isinstance(x.value, ast.Attribute) \
+        and isinstance(x.value.value, (ast.Name, ast.Attribute)):
+      try:
+        r = repo.resolve_dotted(module, core.dotted(x.value.value))
+      except Exception:
+        r = None
+      if r and r[0] == 'class' and any(b.split('.')[-1] in ('Enum', 'IntEnum', 'StrEnum', 'Flag', 'IntFlag') for b in r[1].bases):
+        if x.attr == 'name' and x.value.attr in r[1].attrs:
+          return ast.copy_location(ast.Constant(value=x.value.attr), x)
+        v = r[1].attrs.get(x.value.attr)
+        if x.attr == 'value' and isinstance(v, ast.Constant):
+          return ast.copy_location(dataflow.clone(v), x)
+    return dataflow._map_children(x, sub_)
+  return sub_(node)
+
+
+_VALUE_ANNOTATIONS = ('int', 'float', 'bool', 'str', 'OptionalFloat', 'OptionalInt', 'OptionalRange', 'Optional[int]', 'Optional[float]', 'Optional[str]')
+
+
+def copies_of_value_fields(repo):
+  """copy.copy(p.f) / copy.deepcopy(p.f) / tuple(p.f)  ->  p.f   when f is a field of a dataclass of the package whose
+  annotation says it holds a number, a string, None or a tuple of numbers (the design parameters): a copy of an immutable
+  value is that value (`tuple(t)` of a tuple is t itself).  `tuple(..)` only for the tuple-valued fields.  A defensive
+  copy taken by an "observability" refactoring reads the same thing."""
+  value_fields, tuple_fields, other = set(), set(), set()
+  for c in repo.classes.values():
+    for n_, a_ in c.annotations.items():
+      t = norm(a_)
+      if c.is_dataclass and (t in _VALUE_ANNOTATIONS or t.startswith('Tuple[') or t.startswith('Optional[Tuple[')):
+        value_fields.add(n_)
+        if 'Range' in t or 'Tuple' in t:
+          tuple_fields.add(n_)
+      else:
+        other.add(n_)
+    # attributes stored by methods under the same name in classes that are not such dataclasses
+    if not c.is_dataclass:
+      for x in ast.walk(c.node):
+        if isinstance(x, ast.Attribute) and isinstance(x.ctx, ast.Store):
+          other.add(x.attr)
+  value_fields -= other
+  tuple_fields -= other
+  if not value_fields:
+    return 0
+  n = 0
+  changed = set()
+  for m in repo.modules.values():
+    def sub_(x):
+      nonlocal n
+      if isinstance(x, ast.Call) and len(x.args) == 1 and not x.keywords and isinstance(x.args[0], ast.Attribute) and isinstance(x.args[0].ctx, ast.Load):
+        fn = norm(x.func)
+        a = x.args[0]
+        if (fn in ('copy.copy', 'copy.deepcopy') and a.attr in value_fields) or (fn == 'tuple' and a.attr in tuple_fields):
+          n += 1
+          changed.add(m.name)
+          return sub_(a)
+      return dataflow._map_children(x, sub_)
+    for st in m.tree.body:
+      if isinstance(st, (ast.FunctionDef, ast.AsyncFunctionDef, ast.ClassDef)):
+        st.body = [sub_(s_) for s_ in st.body]
+    # v = p.f ... if v is not None: v = tuple(v) / copy.copy(v)   (v bound only by these two statements): the second is a no-op
+    for fn_ in [x for x in ast.walk(m.tree) if isinstance(x, (ast.FunctionDef, ast.AsyncFunctionDef))]:
+      stores = {}
+      for x in ast.walk(fn_):
+        if isinstance(x, ast.Assign) and len(x.targets) == 1 and isinstance(x.targets[0], ast.Name):
+          stores.setdefault(x.targets[0].id, []).append(x)
+        elif isinstance(x, ast.Name) and isinstance(x.ctx, ast.Store) and not (isinstance(getattr(x, '_parent', None), ast.Assign) and len(x._parent.targets) == 1 and x._parent.targets[0] is x):
+          stores.setdefault(x.id, []).append(None)
+
+      def noop_copy(st_, stores=stores):
+        if not (isinstance(st_, ast.If) and not st_.orelse and isinstance(st_.test, ast.Compare) and len(st_.test.ops) == 1
+                and isinstance(st_.test.ops[0], ast.IsNot) and isinstance(st_.test.left, ast.Name)
+                and isinstance(st_.test.comparators[0], ast.Constant) and st_.test.comparators[0].value is None):
+          return False
+        v = st_.test.left.id
+        body = [b for b in st_.body if not isinstance(b, ast.Assert)]
+        if len(body) != 1 or not (isinstance(body[0], ast.Assign) and len(body[0].targets) == 1 and isinstance(body[0].targets[0], ast.Name)
+                                  and body[0].targets[0].id == v and isinstance(body[0].value, ast.Call) and len(body[0].value.args) == 1
+                                  and isinstance(body[0].value.args[0], ast.Name) and body[0].value.args[0].id == v and not body[0].value.keywords):
+          return False
+        fnm = norm(body[0].value.func)
+        defs = [d for d in stores.get(v, []) if d is not body[0]]
+        if len(defs) != 1 or defs[0] is None or not isinstance(defs[0].value, ast.Attribute):
+          return False
+        fld = defs[0].value.attr
+        return (fnm in ('copy.copy', 'copy.deepcopy') and fld in value_fields) or (fnm == 'tuple' and fld in tuple_fields)
+
+      def blk(stmts):
+        nonlocal n
+        out = []
+        for st_ in stmts:
+          if isinstance(st_, (ast.FunctionDef, ast.AsyncFunctionDef, ast.ClassDef)):
+            out.append(st_)
+            continue
+          for fld_ in ('body', 'orelse', 'finalbody'):
+            if hasattr(st_, fld_) and isinstance(getattr(st_, fld_), list):
+              setattr(st_, fld_, blk(getattr(st_, fld_)) or ([ast.Pass()] if fld_ == 'body' else []))
+          if isinstance(st_, ast.Try):
+            for hd in st_.handlers:
+              hd.body = blk(hd.body) or [ast.Pass()]
+          if noop_copy(st_):
+            n += 1
+            changed.add(m.name)
+            continue
+          out.append(st_)
+        return out
+      fn_.body = blk(fn_.body) or [ast.Pass()]
+  for mn in changed:
+    t = repo.modules[mn].tree
+    ast.fix_missing_locations(t)
+    for p_ in ast.walk(t):
+      for ch in ast.iter_child_nodes(p_):
+        ch._parent = p_
+  return n
